@@ -32,6 +32,9 @@ THEOREMS = [
     "C32_reserved_name_gets_fresh_id",
     "C32_reserved_avoided_refuted",
     "C32_reserved_avoided_partial",
+    "C32_every_id_from_name",
+    "C32_derive_valid_label",
+    "C32_label_predicate_is_the_regex",
 ]
 EXPLANATION = (
     "Lean model of find_deployment_id/_append_random_suffix over List Char; theorems hold for every name, "
@@ -51,6 +54,9 @@ ASSUMPTIONS = [
     "Python str.lower() (Unicode case mapping) is taken from the runtime; the model starts from name.lower()",
     "validate_deployment_id (Kubernetes lookup) is an adversarial oracle: any sequence of answers",
     "random.choices/choice draw from the alphabets named in the source (regenerated constants)",
+    "regex semantics: Lang is the textbook whole-match meaning of the syntax tree Python's re._parser returns for _DNS_1035_RE; "
+    "Python's `$` also matches before a final newline (validate_dns_1035_label('abc\\n') passes), which Lang and isDns1035 exclude "
+    "and the dns correspondence stream accounts for explicitly",
     "create_deployment: only the statement choosing the id (the `if explicit_id is not None … else …`) is executed, "
     "with explicit_id=None; the Kubernetes object creation after it is outside the model",
 ]
